@@ -338,6 +338,23 @@ CLAIMED = {
         technique="TLA+ exact-arithmetic forward-kinematics spec + TLC enumeration, replay into the importer",
         ref="5/C28",
     ),
+    "C29": dict(
+        level="exploration",
+        text="Export.tla models the export protocol: frame selection (every frac-th solution row), collection names made unique among name, "
+             "name1, name2, ... (names are token sequences so that a derived name can coincide with a requested one), one data file per "
+             "exported frame named after the collection; TLC checks Listed / NoClobber for every sequence of calls up to the bound and rejects "
+             "the design in which only the collection name is unique. Seeded random systems (tumbling rigid bodies, point masses, a rotating and "
+             "translating frame, a meshed box, a dead load with offset, a sphere-plane contact) are simulated; Export sessions with random frame "
+             "rates in binary and ASCII mode make 12 calls each in random order (same body twice, lists, the box as mesh and as base export, the "
+             "same file_name twice); the folder is read back with the VTK reader and TLC validates per call: one entry per exported frame, files "
+             "exist, time order, listed time = time of the exported row, each file holds the geometry of that call and frame.",
+        note="Exploration by trace validation: file content is compared in the harness with geometry recomputed from the solution row by the "
+             "harness' own quaternion kinematics at 2e-6 relative (VTK stores points as float32); TLC contributes the protocol model and the "
+             "clauses evaluated on every call. Rods are not exported here. Observation (not part of the property): Export stores "
+             "write_ascii as a 1-tuple, so files are always written in ASCII.",
+        technique="TLA+ protocol spec model-checked by TLC + TLC trace validation of export sessions read back from disk",
+        ref="5/C29",
+    ),
 }
 
 NOT_APPLICABLE = {
